@@ -96,6 +96,20 @@ def gen_string(t, font):
 def gen_color(t, prog):
     k = t.draw(5, "col.kind")
     c = lambda: F(t.rint(0, 8, "col.v"), 8)  # noqa: E731
+    if t.coin(25, 100, "col.stroking"):
+        # the stroking colour is a colour of its own (glyphs are filled): it changes nothing a glyph reports
+        ks = t.draw(4, "col.skind")
+        if ks == 0:
+            prog.append(Op("G", [c()]))
+        elif ks == 1:
+            prog.append(Op("RG", [c(), c(), c()]))
+        elif ks == 2:
+            prog.append(Op("K", [c(), c(), c(), c()]))
+        else:
+            cs = t.pick(["DeviceGray", "DeviceRGB", "DeviceCMYK"], "col.scs")
+            prog.append(Op("CS", [Name(cs.encode())]))
+            prog.append(Op(t.pick(["SC", "SCN"], "col.SC"), [c() for _ in range(gfx.NCOMP[cs])]))
+        return
     if k == 0:
         prog.append(Op("g", [c()]))
     elif k == 1:
@@ -416,6 +430,8 @@ def compare(expected, chars, cfg, devs, tag):
             bad = ("fontname", c.fontname, e["fontname"])
         elif not color_eq(e["ncolor"], c.graphicstate.ncolor):
             bad = ("fill-colour", c.graphicstate.ncolor, e["ncolor"])
+        elif "ncs" in e and getattr(c.ncs, "name", None) != e["ncs"]:
+            bad = ("fill-colour-space", getattr(c.ncs, "name", None), e["ncs"])
         elif e["kind"] == "type1" and (65 <= e["code"] < 91 or e.get("text")) and c.get_text() != (e.get("text") or chr(e["code"])):
             bad = ("text", c.get_text(), e.get("text") or chr(e["code"]))
         if bad:
